@@ -103,6 +103,7 @@ const (
 	ModeProposer               // C17 (cluster part)
 	ModeSigner                 // C04 (node-level part): crashes, WAL damage, every signing call recorded
 	ModeParts                  // C12 (node-level part): equivocating proposers; the block a node assembled is the bytes it received
+	ModeWALReplay              // C14 (node-level part): crashes; the WAL found cut or with one altered byte at the restart; what the catch-up replay consumed and reported is judged against the decoder's view of the same bytes
 )
 
 type evKind int
@@ -268,6 +269,18 @@ func drawConfig(c *kernel.Ctx, mode Mode) Config {
 		cfg.WALDamage = true
 		if cfg.GST < 15*time.Second {
 			cfg.GST = 15 * time.Second
+		}
+	}
+	if mode == ModeWALReplay {
+		// restarts over a damaged WAL are the point: real WAL, several crashes
+		cfg.UseWAL = true
+		cfg.Crashes = true
+		cfg.PermissivePV = false
+		cfg.LongStall = 0
+		cfg.WALDamage = false
+		cfg.Horizon = cfg.GST + 8*time.Minute
+		if cfg.GST < 12*time.Second {
+			cfg.GST = 12 * time.Second
 		}
 	}
 	if mode == ModeHostile {
@@ -686,7 +699,7 @@ func (cl *Cluster) scheduleBackground() {
 	}
 	if cfg.Crashes {
 		k := f.Range(1, 3)
-		if cl.mode == ModeSigner {
+		if cl.mode == ModeSigner || cl.mode == ModeWALReplay {
 			k = f.Range(2, 6)
 		}
 		for x := 0; x < k; x++ {
